@@ -2,6 +2,7 @@ package formatter
 
 import (
 	"fmt"
+	"regexp"
 	"strings"
 	"unicode"
 
@@ -458,6 +459,10 @@ func (f *Formatter) renderInlineChildren(n *html.Node) string {
 	return strings.TrimSpace(b.String())
 }
 
+// tagOpenRe matches a "<" that an HTML parser reads as the start of a tag, end tag,
+// comment or processing instruction.
+var tagOpenRe = regexp.MustCompile(`<([A-Za-z/!?])`)
+
 // escapeText escapes HTML-significant characters (&, <, >) in text content.
 // Content inside {{ }} template expressions is preserved as-is to avoid
 // breaking template syntax like {{ a < b }}.
@@ -475,6 +480,8 @@ func escapeText(s string) string {
 				if html.UnescapeString(expr) != expr {
 					expr = strings.ReplaceAll(expr, "&", "&amp;")
 				}
+				// ... and a "<" followed by a letter, "/", "!" or "?" would open a tag.
+				expr = tagOpenRe.ReplaceAllString(expr, "&lt;$1")
 				b.WriteString(expr)
 				i += 2 + end + 2
 				continue
